@@ -45,20 +45,17 @@ Proof. exact direct_ops_fail_fast. Qed.
 
 (* bind / connect / set_option / get_option / monitor ...: error at once, except in one window - REFUTED there *)
 Theorem C16_closed_ops_delegated_outside : forall r lp,
-  In r op_table -> lp <> LoopLastRecvDone -> after_close r lp = ErrPrompt.
+  In r op_table -> lp <> LoopDrained -> after_close r lp = ErrPrompt.
 Proof. exact delegated_ops_outside. Qed.
 Theorem C16_closed_ops_delegated_refuted :
   exists r lp, In r op_table /\ o_op r = UDelegated /\ after_close r lp = HangsForever.
 Proof. exact delegated_ops_refuted. Qed.
 
 (* operations blocked in their first await when close()/term() happens: every one is released by the Stop arm,
-   by the sessions' exit or by a timeout - except REQ send() waiting for a first peer *)
-Theorem C16_blocked_ops_released_outside : forall r,
-  In r op_table -> o_op r <> UDelegated -> ~ (o_type r = TReq /\ o_op r = USend) -> blocked_at_close r <> StaysBlocked.
-Proof. exact blocked_ops_outside. Qed.
-Theorem C16_blocked_ops_refuted :
-  exists r, In r op_table /\ o_op r <> UDelegated /\ blocked_at_close r = StaysBlocked.
-Proof. exact blocked_ops_refuted. Qed.
+   by the sessions' exit or by a timeout (REQ send() waiting for a first peer included, since the fix: commit) *)
+Theorem C16_blocked_ops_released : forall r,
+  In r op_table -> o_op r <> UDelegated -> blocked_at_close r <> StaysBlocked.
+Proof. exact blocked_ops_released. Qed.
 
 (* the shutdown state machine always terminates, for every LINGER (-1 included), from every reachable state *)
 Theorem C16_close_reaches_finished : forall bc ec cap g0 l evs now now' t t',
